@@ -486,6 +486,25 @@ func (in *interp) call(fr *frame, ce *ast.CallExpr, discardFlags []bool) (value,
 			}
 			return in.constInt(int64(hi - lo)), nil
 		}
+		if fn.Name == "copy" && len(ce.Args) == 2 {
+			// copy(dst, src) between arrays / slices of known length: element-wise
+			d, dlo, dhi, err := in.container(fr, ce.Args[0])
+			if err != nil {
+				return nil, err
+			}
+			sv, slo, shi, err := in.container(fr, ce.Args[1])
+			if err != nil {
+				return nil, err
+			}
+			n := dhi - dlo
+			if shi-slo < n {
+				n = shi - slo
+			}
+			tmp := make([]*Val, n)
+			copy(tmp, sv.elems[slo:slo+n])
+			copy(d.elems[dlo:dlo+n], tmp)
+			return in.constInt(int64(n)), nil
+		}
 		if _, ok := fr.pkg.types[fn.Name]; ok {
 			return in.convert(fr, ce, nil)
 		}
@@ -840,7 +859,9 @@ func (in *interp) assign(fr *frame, lhs ast.Expr, v value, define bool) error {
 		if !ok || lo+i >= hi || i < 0 {
 			return in.unsupported(lhs, "indexed assignment")
 		}
+		fresh := !x.used
 		use(x)
+		x.onlyStored = fresh
 		if x.name == "" {
 			in.nameVal(x, fmt.Sprintf("%s[%d]", exprString(l.X), i))
 		}
